@@ -713,7 +713,31 @@ theorem nextvis_mem (s : List Char) (c : Char) (t : List Char) (h : nextvis s = 
     exact hs.subset List.mem_cons_self
 
 /-- a linear description is accepted only with both parentheses present -/
-theorem linArgs_parens (s : List Char) (g : Gen) (h : linArgs s = some g) : '(' ∈ s ∧ ')' ∈ s := by
+theorem closeOk_nextIs (s : List Char) (h : closeOk s = true) : nextIs s ')' = true := by
+  unfold closeOk at h
+  simp only [Bool.and_eq_true] at h
+  exact h.1
+
+theorem closeOk_suffix (s : List Char) (h : closeOk s = true) :
+    ∃ tl, (')' :: tl) <:+ s ∧ tl.all isSpace = true := by
+  unfold closeOk nextIs nextPos at h
+  cases hv : nextvis s with
+  | error e => rw [hv] at h; simp at h
+  | ok r =>
+    obtain ⟨c, t⟩ := r
+    rw [hv] at h
+    simp only [Bool.and_eq_true, decide_eq_true_eq] at h
+    obtain ⟨hc, ht⟩ := h
+    obtain ⟨hsuf, hhead⟩ := nextvis_suffix s c t hv
+    subst hc
+    cases t with
+    | nil => simp at hhead
+    | cons x xs =>
+      simp at hhead; subst hhead
+      exact ⟨xs, hsuf, ht⟩
+
+theorem linArgs_parens (s : List Char) (g : Gen) (h : linArgs s = some g) :
+    '(' ∈ s ∧ ')' ∈ s ∧ ∃ tl, (')' :: tl) <:+ s ∧ tl.all isSpace = true := by
   unfold linArgs at h
   cases hv : nextvis s with
   | error e => rw [hv] at h; cases h
@@ -740,12 +764,14 @@ theorem linArgs_parens (s : List Char) (g : Gen) (h : linArgs s = some g) : '(' 
           rw [hr] at h
           simp only [] at h
           have hs2 := (linRange_suffix s1 mn mx s2 hr).trans hs1
-          by_cases hn : nextIs s2 ')' = true
-          · exact hs2.subset (nextIs_mem s2 ')' hn)
+          by_cases hn : closeOk s2 = true
+          · obtain ⟨tl, ta, tb⟩ := closeOk_suffix s2 hn
+            exact ⟨hs2.subset (nextIs_mem s2 ')' (closeOk_nextIs s2 hn)), tl, ta.trans hs2, tb⟩
           · rw [if_pos (by simpa using hn)] at h; cases h
     · rw [if_pos hc] at h; cases h
 
-theorem rangeArgs_parens (s : List Char) (g : Gen) (h : rangeArgs s = some g) : '(' ∈ s ∧ ')' ∈ s := by
+theorem rangeArgs_parens (s : List Char) (g : Gen) (h : rangeArgs s = some g) :
+    '(' ∈ s ∧ ')' ∈ s ∧ ∃ tl, (')' :: tl) <:+ s ∧ tl.all isSpace = true := by
   unfold rangeArgs at h
   cases hv : nextvis s with
   | error e => rw [hv] at h; cases h
@@ -772,12 +798,14 @@ theorem rangeArgs_parens (s : List Char) (g : Gen) (h : rangeArgs s = some g) : 
           rw [ht] at h
           simp only [] at h
           have hs2 := (rangeStep_suffix s1 _ step s2 ht).trans hs1
-          by_cases hn : nextIs s2 ')' = true
-          · exact hs2.subset (nextIs_mem s2 ')' hn)
+          by_cases hn : closeOk s2 = true
+          · obtain ⟨tl, ta, tb⟩ := closeOk_suffix s2 hn
+            exact ⟨hs2.subset (nextIs_mem s2 ')' (closeOk_nextIs s2 hn)), tl, ta.trans hs2, tb⟩
           · rw [if_pos (by simpa using hn)] at h; cases h
     · rw [if_pos hc] at h; cases h
 
-theorem facArgs_parens (s : List Char) (g : Gen) (h : facArgs s = some g) : '(' ∈ s ∧ ')' ∈ s := by
+theorem facArgs_parens (s : List Char) (g : Gen) (h : facArgs s = some g) :
+    '(' ∈ s ∧ ')' ∈ s ∧ ∃ tl, (')' :: tl) <:+ s ∧ tl.all isSpace = true := by
   unfold facArgs at h
   cases hv : nextvis s with
   | error e => rw [hv] at h; cases h
@@ -811,8 +839,9 @@ theorem facArgs_parens (s : List Char) (g : Gen) (h : facArgs s = some g) : '(' 
             rw [h3] at h
             simp only [] at h
             have hs5 := (facTail_suffix base s2 fact init s5 h3).trans hs2
-            by_cases hn : nextIs s5 ')' = true
-            · exact hs5.subset (nextIs_mem s5 ')' hn)
+            by_cases hn : closeOk s5 = true
+            · obtain ⟨tl, ta, tb⟩ := closeOk_suffix s5 hn
+              exact ⟨hs5.subset (nextIs_mem s5 ')' (closeOk_nextIs s5 hn)), tl, ta.trans hs5, tb⟩
             · rw [if_pos (by simpa using hn)] at h; cases h
     · rw [if_pos hc] at h; cases h
 
@@ -959,15 +988,15 @@ theorem create_refuses_malformed (s : List Char) (h : IterSpec.certainlyMalforme
           split
           · cases hr : linArgs (List.dropWhile isAlpha (c :: cs)) with
             | none => rfl
-            | some g => exact absurd (linArgs_parens _ g hr).2 hno
+            | some g => exact absurd (linArgs_parens _ g hr).2.1 hno
           · split
             · cases hr : facArgs (List.dropWhile isAlpha (c :: cs)) with
               | none => rfl
-              | some g => exact absurd (facArgs_parens _ g hr).2 hno
+              | some g => exact absurd (facArgs_parens _ g hr).2.1 hno
             · split
               · cases hr : rangeArgs (List.dropWhile isAlpha (c :: cs)) with
                 | none => rfl
-                | some g => exact absurd (rangeArgs_parens _ g hr).2 hno
+                | some g => exact absurd (rangeArgs_parens _ g hr).2.1 hno
               · rfl
     · -- no keyword: the text must start like a number
       have hal' : isAlpha c = false := by simpa using hal
